@@ -1,6 +1,126 @@
-import Asts.Spec.Reconcile
+import Asts.Proofs.L1_b_C05
 
-/-! # C05 — property theorems (under construction) -/
+/-! # C05 — OrderedReady: one pod at a time, predecessors healthy, scale-in from the top
+
+Property theorems only; the lemmas live in `Asts/Proofs/L1_b_*.lean`. `updateStatefulSet` is the model of the core
+reconcile function (tied to the Go code by the `reconcile` engine), `C05` is the monitor of `Spec/Reconcile.lean`,
+`observe` is what a recording pod control sees of the model's actions.
+
+Hypotheses, and why each is there:
+* `v.replicas = some r`, `0 ≤ r` — the CRD makes `replicas` required with minimum 0 (`C05_holds_total` folds both into
+  `0 ≤ replicasOf v`, a nil pointer giving an empty action list);
+* `v.parallel = false` — the property is about every policy other than `Parallel`;
+* `wfSnapshot pods = true` — the precondition under which `monitorRc` evaluates the clause (`C05.ordered`): no two pods
+  parse to the same ordinal, so "the pod at ordinal i" is meaningful (clauses 1–4 in their `Prop` reading do not need it);
+* `IdsOk pods` — the monitor recognises the pod handed to a delete by its id: ids must identify the pods of the snapshot
+  and stay below the ids of objects built by the reconcile. The engine numbers pods by position (`idsOk_of_positions`).
+  Without it the monitor is false on the model (two snapshot pods sharing an id: last `example`). -/
 namespace Asts.C05
+open Asts
+
+/-- **Headline.** Under OrderedReady the monitor `C05` is true on the model's output for every spec, every snapshot
+    with distinct ordinals and every fault plan — no bound on replicas, slots or pods.
+    `Prop` reading: clauses `one_ordinal`, `create_predecessors_healthy`, `scale_in_from_the_top`,
+    `update_only_when_settled` below, with `classify_why` relating the monitor's delete classes to the model's. -/
+theorem C05_holds (v : SetView) (cur upd : String) (pods : List Pod) (f : Faults) (r : Int)
+    (hr : v.replicas = some r) (h0 : 0 ≤ r) (hmono : v.parallel = false) (hwf : wfSnapshot pods = true)
+    (hids : IdsOk pods) :
+    C05 v pods (observe (updateStatefulSet v cur upd pods f).1.acts) = true :=
+  Asts.C05_holds v cur upd pods f r hr h0 hmono hwf hids
+
+/-- The headline with the replica count read as the monitor reads it (`replicasOf v`, 0 for a nil pointer). -/
+theorem C05_holds_total (v : SetView) (cur upd : String) (pods : List Pod) (f : Faults)
+    (h0 : 0 ≤ replicasOf v) (hmono : v.parallel = false) (hwf : wfSnapshot pods = true) (hids : IdsOk pods) :
+    C05 v pods (observe (updateStatefulSet v cur upd pods f).1.acts) = true :=
+  Asts.C05_holds_total v cur upd pods f h0 hmono hwf hids
+
+/-- The headline with pod ids given as positions in the snapshot, as the engine and the driver number them. -/
+theorem C05_holds_positions (v : SetView) (cur upd : String) (pods : List Pod) (f : Faults) (r : Int)
+    (hr : v.replicas = some r) (h0 : 0 ≤ r) (hmono : v.parallel = false) (hwf : wfSnapshot pods = true)
+    (hpos : ∀ (i : Nat) (p : Pod), pods[i]? = some p → p.id = i) (hlen : pods.length < freshId) :
+    C05 v pods (observe (updateStatefulSet v cur upd pods f).1.acts) = true :=
+  Asts.C05_holds v cur upd pods f r hr h0 hmono hwf (idsOk_of_positions hpos hlen)
+
+/-- **Clause 1** (model actions; DESIGN Appendix C.2 ported): under OrderedReady the creates and deletes of one reconcile
+    all target the same ordinal — whatever the spec, the snapshot and the faults. -/
+theorem one_ordinal (v : SetView) (cur upd : String) (pods : List Pod) (f : Faults) (hmono : v.parallel = false) :
+    Same (cd (updateStatefulSet v cur upd pods f).1.acts) :=
+  C05_one_ordinal v cur upd pods f hmono
+
+/-- Clause 1 as the monitor computes it: at most one ordinal is touched by the observed creates and deletes. -/
+theorem one_ordinal_observed (v : SetView) (cur upd : String) (pods : List Pod) (f : Faults)
+    (hmono : v.parallel = false) :
+    ((((observe (updateStatefulSet v cur upd pods f).1.acts).filter (fun a => a.isCreate || a.isDelete)).map
+      OAct.ord).eraseDups).length ≤ 1 :=
+  C05_touched v cur upd pods f hmono
+
+/-- **Clause 2.** A pod is created at `o` only when every desired ordinal below `o` holds a pod of the snapshot that is
+    Running, Ready and not terminating (`HealthyIn pods i` = `∃ p ∈ pods, p.ord = i ∧ p.phase = .running ∧
+    p.ready = true ∧ p.terminating = false`). -/
+theorem create_predecessors_healthy (v : SetView) (cur upd : String) (pods : List Pod) (f : Faults) (r : Int)
+    (hr : v.replicas = some r) (h0 : 0 ≤ r) (hmono : v.parallel = false) {o : Int} {rev : String}
+    (h : Action.create o rev ∈ (updateStatefulSet v cur upd pods f).1.acts) :
+    ∀ i ∈ desired r v.slots, i < o → HealthyIn pods i :=
+  C05_create_pred v cur upd pods f r hr h0 hmono h
+
+/-- **Clause 3.** A scale-down delete at `o` happens only when every desired ordinal holds a healthy pod of the snapshot;
+    its target is a pod of the snapshot outside the desired set, and no pod of the snapshot outside the desired set
+    (with a name that parses) has a higher ordinal. -/
+theorem scale_in_from_the_top (v : SetView) (cur upd : String) (pods : List Pod) (f : Faults) (r : Int)
+    (hr : v.replicas = some r) (h0 : 0 ≤ r) (hmono : v.parallel = false) {o : Int} {id : Nat}
+    (h : Action.delete o id .scaleDown ∈ (updateStatefulSet v cur upd pods f).1.acts) :
+    (∀ i ∈ desired r v.slots, HealthyIn pods i) ∧
+    (∃ c ∈ pods, c.ord = o ∧ c.id = id ∧ 0 ≤ o ∧ o ∉ desired r v.slots) ∧
+    (∀ c ∈ pods, 0 ≤ c.ord → c.ord ∉ desired r v.slots → c.ord ≤ o) :=
+  C05_scaleDown v cur upd pods f r hr h0 hmono h
+
+/-- **Clause 4.** A pod is taken down for an update only when nothing is left to scale in (every pod of the snapshot with
+    a parsed ordinal is desired) and every desired ordinal holds a healthy pod. -/
+theorem update_only_when_settled (v : SetView) (cur upd : String) (pods : List Pod) (f : Faults) (r : Int)
+    (hr : v.replicas = some r) (h0 : 0 ≤ r) (hmono : v.parallel = false) {o : Int} {id : Nat}
+    (h : Action.delete o id .update ∈ (updateStatefulSet v cur upd pods f).1.acts) :
+    (∀ c ∈ pods, 0 ≤ c.ord → c.ord ∈ desired r v.slots) ∧ (∀ i ∈ desired r v.slots, HealthyIn pods i) :=
+  C05_update v cur upd pods f r hr h0 hmono h
+
+/-- The bridge between clauses 3–4 and the monitor: the snapshot-only classifier of `Spec/Reconcile.lean` puts the model's
+    scale-down deletes in class `scale`, its replacements of Failed/Succeeded pods in `replace`, and the deletes of its
+    update walk in `update` (both policies). -/
+theorem classify_why (v : SetView) (cur upd : String) (pods : List Pod) (f : Faults) (r : Int)
+    (hr : v.replicas = some r) (h0 : 0 ≤ r) (hids : IdsOk pods) {o : Int} {id : Nat} {why : Why}
+    (h : Action.delete o id why ∈ (updateStatefulSet v cur upd pods f).1.acts) :
+    classify (desired r v.slots) pods (Action.observe (.delete o id why)) = why.cls :=
+  Asts.classify_why v cur upd pods f r hr h0 hids h
+
+/-! ### non-vacuity: three desired ordinals thinned by a slot (`D = [0, 2, 3]`), pods beyond the range -/
+
+private def pod (n : Nat) (o : Int) (rv : String) : Pod :=
+  { id := n, ord := o, phase := .running, ready := true, terminating := false, rev := rv, idOk := true, stOk := true }
+
+private def v0 : SetView :=
+  { replicas := some 3, slots := [1], parallel := false, strat := .rolling, ru := some (some 2),
+    deleting := false, generation := 1, stCurrentReplicas := 0 }
+
+/-- the hypotheses hold on a concrete snapshot, and the reconcile does something there: it scales in from the top -/
+example : v0.replicas = some 3 ∧ v0.parallel = false ∧
+    wfSnapshot [pod 0 0 "a", pod 1 2 "a", pod 2 3 "a", pod 3 5 "a", pod 4 7 "a"] = true ∧
+    (updateStatefulSet v0 "a" "b" [pod 0 0 "a", pod 1 2 "a", pod 2 3 "a", pod 3 5 "a", pod 4 7 "a"] []).1.acts
+      = [.delete 7 4 .scaleDown] := by decide
+
+example : IdsOk [pod 0 0 "a", pod 1 2 "a", pod 2 3 "a", pod 3 5 "a", pod 4 7 "a"] :=
+  idsOk_of_positions (by
+    intro i p h
+    match i, h with
+    | 0, h | 1, h | 2, h | 3, h | 4, h => simp at h; subst h; rfl
+    | n + 5, h => simp at h) (by decide)
+
+/-- a vacancy is filled only after its predecessors are healthy; an update waits for the scale-in -/
+example : (updateStatefulSet v0 "a" "b" [pod 0 0 "a", pod 1 2 "a", pod 2 5 "a"] []).1.acts = [.create 3 "b"] ∧
+    (updateStatefulSet v0 "a" "b" [pod 0 0 "a", pod 1 2 "a", pod 2 3 "a"] []).1.acts = [.delete 3 2 .update] := by
+  decide
+
+/-- `IdsOk` cannot be dropped: with two snapshot pods sharing an id the monitor misreads the scale-down delete -/
+example : C05 { v0 with replicas := some 1, slots := [] } [pod 0 0 "a", pod 0 5 "a"]
+    (observe (updateStatefulSet { v0 with replicas := some 1, slots := [] } "a" "a" [pod 0 0 "a", pod 0 5 "a"] []).1.acts)
+    = false := by decide
 
 end Asts.C05
